@@ -25,10 +25,20 @@ def K(v):
     return ("K", v)
 
 
-TKINDS = {"TUntyped": None, "TFound": Sup, "TNotFound": Unsup, "TLazyNotFound": Set[Unsup], "TRecursive": "self"}
+TKINDS = {"TUntyped": None, "TFound": Sup, "TNotFound": Unsup, "TLazyNotFound": Set[Unsup], "TRecursive": "self",
+          # primitive types: the born-with hook calls the class (int("7")); the raw value is of another class, so hook(raw) != raw
+          "TPrimInt": int, "TPrimStr": str}
+PRIM_RAW = {"TPrimInt": ("7", 7), "TPrimStr": (5, "5")}
+# in the model a primitive type is a type whose hook is found
+TK_COQ = {"TPrimInt": "TFound", "TPrimStr": "TFound"}
 
 
-def classify(v, raw, cl=None):
+def classify(v, raw, cl=None, hooked=None):
+    if hooked is not None:
+        for got, name in ((("K", hooked), "(VK VHook)"), (("K", raw), "(VK VRaw)"), (hooked, "VHook"), (raw, "VRaw")):
+            if v == got and type(v) is type(got) and (not isinstance(v, tuple) or type(v[1]) is type(got[1])):
+                return name
+        return f"?{v!r}"
     if cl is not None:
         # self-referential attribute: the "hook" is the class's own structure hook
         inner = v[1] if isinstance(v, tuple) and len(v) == 2 and v[0] == "K" else v
@@ -50,7 +60,7 @@ def classify(v, raw, cl=None):
 
 
 def doc_rule(has_conv, prefer, tk):
-    exists = {"TUntyped": None, "TFound": True, "TNotFound": False, "TLazyNotFound": False, "TRecursive": True}[tk]
+    exists = {"TUntyped": None, "TFound": True, "TNotFound": False, "TLazyNotFound": False, "TRecursive": True, "TPrimInt": True, "TPrimStr": True}[tk]
     if has_conv:
         if prefer:
             return "(VK VRaw)"
@@ -105,6 +115,9 @@ def check_c20(v: Verdict, tier):
                     continue              # the self-reference needs a default (the nested payload leaves it out)
                 cl, names = build(tk, has_conv, position, n_extra, with_default)
                 raw = [1] if tk == "TLazyNotFound" else "raw"
+                hooked = None
+                if tk in PRIM_RAW:
+                    raw, hooked = PRIM_RAW[tk]
                 if tk == "TRecursive":
                     if not with_default:
                         continue          # the nested payload leaves the self-reference out: it needs its default
@@ -126,12 +139,12 @@ def check_c20(v: Verdict, tier):
                         payload = [(raw if n == "target" else 3) for n in names]
                     try:
                         inst = conv.structure(payload, cl)
-                        obs = classify(inst.target, raw, cl if tk == "TRecursive" else None)
+                        obs = classify(inst.target, raw, cl if tk == "TRecursive" else None, hooked)
                     except Exception:
                         obs = "VFail"
                     hist["observations"] += 1
                     fn = "gen_field" if generated else "interp_field"
-                    cases.append(f"fval_eqb ({fn} {str(has_conv).lower()} {str(prefer).lower()} {tk}) {obs if not obs.startswith('?') else 'VFail'}")
+                    cases.append(f"fval_eqb ({fn} {str(has_conv).lower()} {str(prefer).lower()} {TK_COQ.get(tk, tk)}) {obs if not obs.startswith('?') else 'VFail'}")
                     desc = {"has_converter": has_conv, "prefer_attrib_converters": prefer, "type": tk, "position": position, "fields": len(names),
                             "default": with_default, "converter_class": "Converter" if full else "BaseConverter", "detailed_validation": dv,
                             "strategy": strat.name, "observed": obs}
